@@ -1987,6 +1987,10 @@ func (r *Run) call(call *ast.CallExpr, env *Env) Val {
 			if v, ok := r.foldSlices(fn.Name(), call, env, rt); ok {
 				return v
 			}
+		case "regexp":
+			if v, ok := r.foldRegexp(fn.Name(), call, env); ok {
+				return v
+			}
 		case "path":
 			if v, ok := r.foldStrings("path."+fn.Name(), call, env); ok {
 				return v
@@ -2144,6 +2148,18 @@ func (r *Run) followInValidation(fn *types.Func) bool {
 		res := fn.Type().(*types.Signature).Results()
 		if (r.W.Concrete || r.W.FollowAnnHelpers) && res.Len() > 0 && !r.W.readsOptionsDirect(fn) {
 			return true // scenario mode: every helper that is not a base accessor is interpreted
+		}
+		// a helper over scalars only (ExtractPathParams(path string) []string …) has nothing symbolic to hide
+		if sig := fn.Type().(*types.Signature); r.FollowSlices && sig.Recv() == nil && sig.Params().Len() > 0 && res.Len() > 0 && !r.W.readsOptions(fn) {
+			scalar := true
+			for i := 0; i < sig.Params().Len(); i++ {
+				if _, ok := sig.Params().At(i).Type().Underlying().(*types.Basic); !ok {
+					scalar = false
+				}
+			}
+			if scalar {
+				return true
+			}
 		}
 		return res.Len() > 0 && isErrorType(res.At(res.Len()-1).Type())
 	}
@@ -2435,6 +2451,80 @@ func (r *Run) foldSlices(name string, call *ast.CallExpr, env *Env, rt types.Typ
 	return nil, false
 }
 
+// foldRegexp evaluates the matching methods of a package-level *regexp.Regexp that is initialised with
+// regexp.MustCompile(<constant>) and never written, on a constant subject string (constant folding: the pattern
+// and the subject are both constants of the analysed source).
+func (r *Run) foldRegexp(name string, call *ast.CallExpr, env *Env) (Val, bool) {
+	sel, ok := ast.Unparen(call.Fun).(*ast.SelectorExpr)
+	if !ok || len(call.Args) == 0 {
+		return nil, false
+	}
+	id, ok := ast.Unparen(sel.X).(*ast.Ident)
+	if !ok {
+		return nil, false
+	}
+	o, _ := r.info().ObjectOf(id).(*types.Var)
+	if o == nil || o.Pkg() == nil || o.Parent() != o.Pkg().Scope() {
+		return nil, false
+	}
+	init, ppk := r.W.pkgVarInit(o)
+	ic, ok := init.(*ast.CallExpr)
+	if !ok || ppk == nil || len(ic.Args) != 1 {
+		return nil, false
+	}
+	if f := Callee(ppk.TypesInfo, ic); f == nil || f.Pkg() == nil || f.Pkg().Path() != "regexp" || (f.Name() != "MustCompile" && f.Name() != "MustCompilePOSIX") {
+		return nil, false
+	}
+	tv, ok := ppk.TypesInfo.Types[ic.Args[0]]
+	if !ok || tv.Value == nil || tv.Value.Kind() != constant.String {
+		return nil, false
+	}
+	re, err := regexp.Compile(constant.StringVal(tv.Value))
+	if err != nil {
+		return nil, false
+	}
+	sv, ok := r.eval(call.Args[0], env).(VStr)
+	if !ok {
+		return nil, false
+	}
+	subj, ok := sv.isConst()
+	if !ok {
+		return nil, false
+	}
+	strs := func(ss []string) Val {
+		l := VList{Key: "regexp", Elems: []Val{}}
+		for _, x := range ss {
+			l.Elems = append(l.Elems, constStr(x))
+		}
+		return l
+	}
+	n := -1
+	if len(call.Args) == 2 {
+		nv, ok := r.eval(call.Args[1], env).(VInt)
+		if !ok {
+			return nil, false
+		}
+		n = int(nv.N)
+	}
+	switch name {
+	case "MatchString":
+		return VBool{B: re.MatchString(subj)}, true
+	case "FindString":
+		return constStr(re.FindString(subj)), true
+	case "FindStringSubmatch":
+		return strs(re.FindStringSubmatch(subj)), true
+	case "FindAllString":
+		return strs(re.FindAllString(subj, n)), true
+	case "FindAllStringSubmatch":
+		l := VList{Key: "regexp", Elems: []Val{}}
+		for _, m := range re.FindAllStringSubmatch(subj, n) {
+			l.Elems = append(l.Elems, strs(m))
+		}
+		return l, true
+	}
+	return nil, false
+}
+
 // foldStrings evaluates pure strings.* helpers on constant arguments.
 func (r *Run) foldStrings(name string, call *ast.CallExpr, env *Env) (Val, bool) {
 	args := r.args(call, env)
@@ -2588,6 +2678,14 @@ func (r *Run) builtin(name string, call *ast.CallExpr, env *Env, rt types.Type) 
 					}
 				}
 				return l
+			}
+		}
+		if r.FollowSlices && name == "make" && rt != nil && len(call.Args) >= 2 {
+			// make([]T, 0[, cap]) in a run that follows slices: the empty list
+			if _, isSlice := rt.Underlying().(*types.Slice); isSlice {
+				if n, ok := r.eval(call.Args[1], env).(VInt); ok && n.N == 0 {
+					return VList{Key: "list", Elems: []Val{}}
+				}
 			}
 		}
 		return VSym{Key: fmt.Sprintf("%s@%s", name, r.W.P.Pos(call.Pos())), Typ: rt}
